@@ -15,8 +15,8 @@ RULE = ("cases = groups of single calls on generated operands. Exact part (real 
         "singular, sparse, affine and small-integer matrices; quaternion matrix()/operator^/conj/inverse/rotation() on random and "
         "unit quaternions; solve/solve_/Matrix::inverse on n x n systems, n = 0..12 (thorough: ..20), 1-3 right-hand sides, random, "
         "sparse, permuted-triangular (zero leading entries, row exchanges needed at every step), singular, and over-determined "
-        "full-rank / rank-deficient systems; axis-angle conversions and rotateE executed exactly with rational stand-ins for "
-        "cos/sin/acos (unit, non-unit and zero axes, unit / non-unit / w=+-1 / w=0 quaternions). Numeric part: float and double instantiations against long double references "
+        "full-rank / rank-deficient systems; axis-angle conversions, rotateE and eulerAngles executed exactly with stand-ins for "
+        "cos/sin/acos/atan2 (unit, non-unit and zero axes, unit / non-unit / w=+-1 / w=0 quaternions). Numeric part: float and double instantiations against long double references "
         "(inverse, det, solve, least squares with residual <= c*eps*cond; quaternion <-> matrix <-> axis-angle <-> 24 Euler "
         "conventions on random rotations, a grid, gimbal-lock and 180-degree cases). "
         "non-trivial = distinct case containing an op with at least two different operand tokens")
@@ -30,9 +30,9 @@ ASSUMPTIONS = ["field laws for the scalar type (the theorems are over an arbitra
                "fabs/< of the scalar type select a non-zero pivot whenever one exists (Cmp laws P1,P2 in AslProps/C20.lean; true of "
                "the reals, of IEEE numbers without NaN and of the prime-field order used by the harness)",
                "sqrt returns a square root of the radicand (hypothesis of the rotation() theorems)",
-               "cos/sin/asin/acos/atan2/PI satisfy TrigOK, TrigAA, TrigDouble of lean/AslProofs/{Euler,AxisAngle}.lean (proved for the real "
+               "cos/sin/atan2/sqrt/PI satisfy TrigOK, TrigAA, TrigDouble, CmpStd of lean/AslProofs/{Euler,AxisAngle}.lean (proved for the real "
                "functions; libm is assumed to approximate them)",
-               "libm sin/cos/asin/acos/atan2/sqrt are accurate to a few ulp (numeric clauses only)",
+               "libm sin/cos/atan2/sqrt are accurate to a few ulp (numeric clauses only)",
                "Array/Array2 storage (C01) for the dense matrices"]
 
 
@@ -458,7 +458,7 @@ def gen_exact(rng, tier):
                       "m4mul %s %s" % (fmt(flat(qmat_ref(p))), fmt(flat(qmat_ref(q)))) if (sum(x * x for x in p) % P == 1 and sum(x * x for x in q) % P == 1) else "qlen2 " + P_,
                       "qconj " + P_, "qinv " + P_, "qinv " + Q_, "qlen2 " + P_, "qdot %s %s" % (P_, Q_), "qrotrt " + P_, "qrotrt " + Q_,
                       "m4rot " + fmt(flat(qmat_ref(p))) if sum(x * x for x in p) % P == 1 else "qlen2 " + Q_])
-    # axis-angle conversions, executed exactly with the rational stand-ins for cos/sin/acos (see harness/c20.cpp)
+    # axis-angle conversions, executed exactly with the stand-ins for cos/sin/acos/atan2 (see harness/c20.cpp)
     for i in range(N):
         u = unit_vec(rng)
         ax = u if i % 3 else [rf(rng) for _ in range(3)]
@@ -479,6 +479,28 @@ def gen_exact(rng, tier):
         cases.append(["qfaa " + A_, "qfaau " + fmt(u + [ang]), "qfrv " + fmt(ax), "m4rotaa " + A_, "m4rotaa " + fmt(u + [ang]), "m4rotv " + fmt(ax),
                       "qangle " + Q_, "qaxang " + Q_, "qaart " + Q_, "m4axang " + fmt(flat(qmat_ref(q))) if sum(x * x for x in q) % P == 1 else "qangle " + Q_,
                       "m4rote %s %d %d %d" % (fmt([rf(rng) for _ in range(3)]), rng.randrange(3), rng.randrange(3), rng.randrange(3))])
+    # eulerAngles executed exactly (stand-in trig): matrices composed by rotateE incl. exact locks (angle value 1 has cos = 0,
+    # sin = 1; angle value 0 has cos = 1, sin = 0), and arbitrary matrices
+    for i in range(N):
+        angs = [rng.choice([rf(rng), rf(rng), rf(rng), 0, 1, P - 1, small(rng)]) for _ in range(3)]
+        a0 = rng.randrange(3)
+        sel1 = rng.randrange(2)
+        a1 = (a0 + 1 + sel1) % 3
+        a2 = rng.choice([a0, 3 - a0 - a1])
+        M = ident(4)
+        ok = True
+        for ang, axn in zip(angs, (a0, a1, a2)):
+            cs = fake_cs(ang)
+            if cs is None:
+                ok = False
+                break
+            M = mmul(M, axis_rot(axn, cs[0], cs[1]))
+        c = []
+        if ok:
+            c.append("m4euler %s %d %d %d" % (fmt(flat(M)), a0, sel1, a2))
+            c.append("m4euler %s %d %d %d" % (fmt(flat(M)), rng.randrange(3), rng.randrange(2), rng.randrange(3)))
+        c.append("m4euler %s %d %d %d" % (fmt(flat(rand_mat(rng, 4, 4, "uniform" if i % 3 else "small"))), rng.randrange(3), rng.randrange(2), rng.randrange(3)))
+        cases.append(c)
     # linear systems
     top = 12 if tier == "quick" else 24
     reps = 3 if tier == "quick" else 100
@@ -717,7 +739,32 @@ def distribution(cases):
             if t[0] == "fsolve":
                 key = "float n=%s" % t[1] if t[1] == t[2] else "float LS"
                 sizes[key] = sizes.get(key, 0) + 1
-    return {"ops_by_kind": ops, "solve_sizes": sizes, "square_systems_needing_row_exchange_without_which_elimination_fails": exch,
+    near = {}
+    for c in cases:
+        for l in c:
+            t = l.split()
+            try:
+                if t[0] == "feuler":
+                    mid = struct.unpack(">d", bytes.fromhex(t[3]))[0]
+                    d = abs(math.cos(mid)) if t[1][0] != t[1][2] else abs(math.sin(mid))
+                    key = "feuler: cos/sin of the middle angle " + ("= 0 (float-exact lock)" if d < 1e-15 else "in [1e%d, 1e%d)" % (math.floor(math.log10(d)), math.floor(math.log10(d)) + 1))
+                    near[key] = near.get(key, 0) + 1
+                elif t[0] == "faxis":
+                    v = [struct.unpack(">d", bytes.fromhex(x))[0] for x in t[1:4]]
+                    a = math.sqrt(sum(x * x for x in v))
+                    key = "faxis: angle " + ("= 0" if a == 0 else "in [1e%d, 1e%d)" % (math.floor(math.log10(a)), math.floor(math.log10(a)) + 1))
+                    near[key] = near.get(key, 0) + 1
+                elif t[0] == "frot":
+                    q = [struct.unpack(">d", bytes.fromhex(x))[0] for x in t[1:5]]
+                    a = 2 * math.atan2(math.sqrt(sum(x * x for x in q[1:])), abs(q[0]))
+                    if a < 0.1:
+                        key = "frot: angle " + ("= 0" if a == 0 else "in [1e%d, 1e%d)" % (math.floor(math.log10(a)), math.floor(math.log10(a)) + 1))
+                        near[key] = near.get(key, 0) + 1
+                elif t[0] == "m4euler":
+                    near["m4euler (exact, over the prime field)"] = near.get("m4euler (exact, over the prime field)", 0) + 1
+            except (ValueError, struct.error, IndexError):
+                pass
+    return {"ops_by_kind": ops, "solve_sizes": sizes, "small_angle_and_near_lock_cases": dict(sorted(near.items())), "square_systems_needing_row_exchange_without_which_elimination_fails": exch,
             "singular_square_systems(model=impl only)": sing, "overdetermined_systems": ls, "rank_deficient_overdetermined": lsdef}
 
 
@@ -783,17 +830,17 @@ LEVEL_TEXT = ("Proved in Lean 4 over an arbitrary field, about definitions REGEN
               "branch of Matrix4::rotation() returns q or -q for the matrix of a unit quaternion q when its root is a non-zero square "
               "root, and over every ordered field the branch conditions guarantee that (rotation_correct_ordered); Vec3 cross/dot. "
               "Euler angles: rotateX/Y/Z, rotate(int,T), rotateE and eulerAngles (both const char* wrappers) are regenerated with "
-              "cos/sin/asin/acos/atan2/PI as an abstract interface; for any such functions with the standard properties (TrigOK, shown "
+              "cos/sin/atan2/sqrt/PI as an abstract interface; for any such functions with the standard properties (TrigOK, shown "
               "to hold for the real functions) and exact arithmetic, rotateE(eulerAngles(rotateE(r))) = rotateE(r) for EVERY angle "
               "triple r, all 12 axis orders, moving and fixed frames, both away from the gimbal lock (general branch, |cos b| resp. |sin b| > lim) and "
-              "exactly on the lock (degenerate branch); the entries fed to asin/atan2 are exactly sin b, cos b (sin a, cos a), "
-              "cos b (sin c, cos c). "
+              "exactly on the lock (degenerate branch); eulerAngles reads sin b, c = sqrt(..) = |cos b| and cos b (sin c, cos c) from the "
+              "matrix (euler_arguments), and the first angle from M*rotate(a2,-r0). "
               "Axis-angle: fromAxisAngle/fromAxisAngleU/fromAxisAngle(v), angle(), axisAngle(), Matrix4::rotate(axis,angle), rotate(Vec3), "
               "Matrix4::axisAngle() are regenerated too; proved: fromAxisAngleU of a unit axis is a unit quaternion, its matrix is "
               "Rodrigues' matrix I + sin t [u]x + (1-cos t)[u]x^2, Matrix4::rotate(axis,angle) is that matrix about axis/|axis|, and for "
               "every unit quaternion q fromAxisAngle(q.axisAngle()) = +-q (angle-0 branch included) so rotate(M.axisAngle()) = M; "
               "matrix(rotation(M)) = M for every M in the image of matrix() (rotation_matrix_partial). These code paths are also "
-              "executed exactly over the prime field with rational stand-ins for cos/sin/acos and compared with the model and with "
+              "executed exactly over the prime field with stand-ins for cos/sin/acos/atan2 (rational parametrisation of the unit circle) and compared with the model and with "
               "Rodrigues / textbook axis-rotation references. "
               "Proved about the hand-written transcription of solve_/solve/Matrix::inverse (tied to the code by the correspondence "
               "check): for every non-singular n x n system, every number of right-hand sides and EVERY pivot-selection function that "
@@ -809,14 +856,18 @@ LEVEL_NOTE = ("Trusted: Lean kernel; the expression translator tools/props/c20_t
               "floats): all float/double residual bounds; "
               "rotation_matrix_full (matrix(rotation M) = M for EVERY proper rotation matrix M) is only stated: it needs surjectivity of "
               "q -> matrix q onto SO(3); proved is rotation_matrix_partial (M in the image). The axis-angle and Euler theorems assume "
-              "TrigOK/TrigAA/TrigDouble/CmpStd for cos/sin/asin/acos/atan2/sqrt (proved for the real functions in examples); "
+              "TrigOK/TrigAA/TrigDouble/CmpStd for cos/sin/atan2/sqrt (proved for the real functions in examples); "
               "the behaviour of eulerAngles() when the cosine (sine) c of the middle angle is in (0, lim] (there the last angle is set to 0, "
-              "an approximation with error <= c <= lim = 16 eps); numeric tolerance: 64*eps for every rotation conversion "
+              "an approximation; the bound error <= O(c) <= O(16 eps) is NOT proved, only validated numerically); numeric tolerance: 64*eps for every rotation conversion "
               "(quaternion, matrix, axis-angle at every angle incl. 10^-k; Euler angles of rotateE-built and of quaternion-built "
               "matrices at every distance from the lock incl. lock +- 10^-k). The Euler "
               "theorems are about exact arithmetic with abstract trigonometric functions; the branch threshold lim is a parameter (>= 0). "
-              "The Euler/rotate definitions are tied to the source by the translator only (they are not executed by the model driver: no "
-              "exact trigonometry exists over the prime field); the real eulerAngles()/rotateE() are exercised numerically. "
+              "The Euler/rotate/axis-angle definitions are tied to the source by the translator AND executed exactly by the model driver "
+              "against the real templates over the prime field with the stand-in trigonometry (ops m4rote, m4euler, m4rotaa, qaxang, ...; "
+              "a differential test of the arithmetic and branch structure, the stand-ins are not real trigonometry); the real "
+              "eulerAngles()/rotateE() are exercised numerically as well. NOT proved: the band 0 < c <= lim of eulerAngles between "
+              "euler_roundtrip (lim < c) and euler_roundtrip_locked (c = 0), where the last angle is set to 0; a reviewer suggested an "
+              "entrywise <= 2c bound, which is stated as a comment in AslProps/C20.lean but not proved. "
               "The solve_ model is hand-written (K-tied), not regenerated; its inner jj-loop is modelled as the simultaneous row update "
               "it is equal to. Theorems assume field laws: they say nothing about rounding. Two defects were found and repaired in "
               "/repo (fix: commits ddac4e2 Matrix3 operator*, 59184ad eulerAngles near gimbal lock); two more reported by an independent hunt "
